@@ -546,6 +546,75 @@ def stateless_backend(F, R, rid="C17-K9"):
 
 
 
+def k10(F, R):
+    """The CPU backend computes every vector operation itself: a trait default it inherits may only forward."""
+    R.rule("C17-K10", "every method of the Math trait that CpuMath does not implement itself (it inherits the trait's default body) performs no floating-point "
+                      "arithmetic of its own: it only forwards to other backend operations. A default that re-derives a result from other reductions "
+                      "(`|x+y|^2 = x.x + 2 x.y + y.y`) is not the element-by-element formula and cancels where the element formula does not")
+    tr = [v for k_, v in F.traits.items() if path_ends(k_, "math::Math")]
+    if not tr:
+        R.missing("C17-K10", "trait math::Math")
+        return
+    fns = [it["name"] for it in tr[0]["items"] if it.get("inputs") is not None]
+    cpu = {b.fn_name for b in F.bodies.values() if b.kind != "closure" and b.parent.get("trait") and path_ends(b.parent["trait"], "math::Math")
+           and path_ends(b.parent.get("self_adt") or "", "cpu_math::CpuMath")}
+    if len(cpu) < 30:
+        R.missing("C17-K10", "impl Math for CpuMath (found %d methods)" % len(cpu))
+        return
+    n = 0
+    for name in sorted(set(fns) - cpu):
+        db = [b for b in F.bodies.values() if b.kind != "closure" and b.parent.get("kind") == "trait" and b.fn_name == name and "math::Math" in b.path]
+        key = "Math::%s:inherited" % name
+        if not db:
+            continue        # required method without body cannot be missing from the impl (the compiler checks)
+        n += 1
+        d = db[0]
+        arith = []
+        for bx in [d] + K.all_closures_of(F, d.path):
+            for blk in bx.blocks:
+                for st in blk["stmts"]:
+                    if st["k"] == "assign" and st["rv"]["k"] in ("bin", "un") and st["rv"].get("op") in ("Add", "Sub", "Mul", "Div", "Rem", "Neg"):
+                        tys = [bx.local_ty(o["pl"]["l"]) if o.get("k") in ("copy", "move") and not o["pl"]["p"] else (o.get("const") or {}).get("ty") for o in
+                               ([st["rv"].get("a"), st["rv"].get("b")] if st["rv"]["k"] == "bin" else [st["rv"].get("a")]) if o]
+                        if any(t_ in ("f64", "f32") for t_ in tys):
+                            arith.append(loc(st["span"]))
+        site = "%s @%s" % (d.path, d.loc())
+        if arith:
+            R.bad("C17-K10", key, site, "CpuMath uses the trait default of %s, which does floating-point arithmetic on the results of other operations (%s)" % (name, ", ".join(arith[:3])))
+        else:
+            R.ok("C17-K10", key, site, "inherited default of %s only forwards" % name)
+    R.ok("C17-K10", "overrides", "impl Math for CpuMath", "%d of %d operations implemented by the backend itself, %d inherited" % (len(cpu & set(fns)), len(fns), n))
+    R.floor("C17-K10", 2)
+
+
+
+def k11(F, R):
+    """The floating-point environment is the default one: the math backend contains no unsafe code / inline assembly."""
+    R.rule("C17-K11", "the math backend (math::*) has no `unsafe` block or unsafe fn: nothing can change the floating-point environment (flush-to-zero / "
+                      "denormals-are-zero, rounding mode) under the kernels, and nothing reads or writes vector memory outside the checked slice operations")
+    n = 0
+    hits = []
+    for b in F.hir_bodies():
+        sa = b.parent.get("self_adt") or ""
+        if not (b.path.startswith(("math::", "<math::")) or sa.startswith("math::")) or not b.hir or K.is_std_derive(b):
+            continue
+        n += 1
+        for x in hir_walk(b.hir["value"]):
+            if x.get("k") == "Block" and x.get("unsafe") and not (x.get("span") or {}).get("exp"):
+                hits.append((b, x.get("span")))
+            if x.get("k") == "InlineAsm":
+                hits.append((b, x.get("span")))
+        if str(b.r.get("safety", "Safe")).lower().startswith("unsafe"):
+            hits.append((b, b.span))
+    for (b, sp) in hits:
+        R.bad("C17-K11", "%s:unsafe" % b.path, "%s @%s" % (b.path, loc(sp or b.span)), "unsafe code in the math backend: the kernels' results can depend on state set here "
+              "(e.g. MXCSR flush-to-zero makes subnormal elements vanish from every sum and product)")
+    R.ok("C17-K11", "scan", "math::*", "%d function bodies of the math backend scanned, %d unsafe sites" % (n, len(hits)))
+    if n < 60:
+        R.missing("C17-K11", "bodies of the math backend (found %d)" % n)
+
+
+
 def run(F, R, config=None):
     R.rule("C17-K1", "each slice operand of a kernel is split exactly once by S::as_(mut_)simd_f64s and its head exactly once by pulp::as_arrays(_mut)::<4>")
     R.rule("C17-K2", "exactly three element loops (unrolled body, SIMD tail, scalar tail); each zips the corresponding piece of every operand exactly once")
@@ -561,6 +630,8 @@ def run(F, R, config=None):
     k7(F, R)
     k8(F, R)
     stateless_backend(F, R)
+    k10(F, R)
+    k11(F, R)
     R.floor("C17-K1", 25)
     R.floor("C17-K2", 40)
     R.floor("C17-K3", 40)
